@@ -228,6 +228,16 @@ impl Property for C07 {
                 try_arg(&mut ck, acc, i, &mut base, Raw(s.as_bytes().to_vec()), true, "user renderer with LF");
                 try_arg(&mut ck, acc, i, &mut base, TwoStep(b"ok".to_vec(), s.as_bytes().to_vec()), true, "two-step user renderer with LF in the second part");
                 try_arg(&mut ck, acc, i, &mut base, TwoStep(s.as_bytes().to_vec(), b"tail".to_vec()), true, "two-step user renderer with LF in the first part");
+                // user renderers are free to emit bytes that are not UTF-8: before, after and around the line feed
+                for bad in [&b"\xff"[..], b"caf\xe9", b"abc\xc3", b"\xed\xa0\x80", b"\0", b"\xc3\xa9\xff"] {
+                    let mut v = bad.to_vec();
+                    v.extend_from_slice(s.as_bytes());
+                    try_arg(&mut ck, acc, i, &mut base, Raw(v.clone()), true, "user renderer: non-UTF-8 bytes, then the LF string");
+                    let mut w = s.as_bytes().to_vec();
+                    w.extend_from_slice(bad);
+                    try_arg(&mut ck, acc, i, &mut base, Raw(w), true, "user renderer: the LF string, then non-UTF-8 bytes");
+                    try_arg(&mut ck, acc, i, &mut base, TwoStep(v, bad.to_vec()), true, "two-step user renderer with non-UTF-8 bytes around the LF string");
+                }
                 // Filter values and Tag::Other with LF (hand-constructed)
                 try_arg(&mut ck, acc, i, &mut base, Filter::tag(Tag::Artist, *s), true, "Filter value with LF");
                 try_arg(&mut ck, acc, i, &mut base, Tag::Other((*s).into()), true, "Tag::Other with LF");
@@ -250,6 +260,7 @@ impl Property for C07 {
             try_arg(&mut ck, acc, i, &mut base, Tag::Artist, false, "Tag");
             try_arg(&mut ck, acc, i, &mut base, Filter::tag(Tag::Artist, "x y"), false, "Filter");
             try_arg(&mut ck, acc, i, &mut base, Raw(b"raw bytes \xff".to_vec()), false, "user renderer");
+            try_arg(&mut ck, acc, i, &mut base, Raw(b"\xff\xfe\0\r".to_vec()), false, "user renderer, not UTF-8, no LF");
             try_arg(&mut ck, acc, i, &mut base, "\r", false, "lone CR");
             return;
         }
@@ -305,7 +316,11 @@ impl Property for C07 {
                 0 => try_arg(&mut ck, acc, i, &mut c, s.as_str(), with_lf, "history &str"),
                 1 => try_arg(&mut ck, acc, i, &mut c, s.clone(), with_lf, "history String"),
                 2 => try_arg(&mut ck, acc, i, &mut c, Cow::Borrowed(s.as_str()), with_lf, "history Cow"),
-                3 => try_arg(&mut ck, acc, i, &mut c, Raw(s.as_bytes().to_vec()), with_lf, "history user renderer"),
+                3 => {
+                    let mut v = if r.chance(1, 2) { vec![0xffu8, 0xc3] } else { Vec::new() };
+                    v.extend_from_slice(s.as_bytes());
+                    try_arg(&mut ck, acc, i, &mut c, Raw(v), with_lf, "history user renderer")
+                }
                 _ => try_arg(&mut ck, acc, i, &mut c, Filter::tag(Tag::Album, s.as_str()), with_lf, "history Filter"),
             };
             if !ok {
